@@ -808,6 +808,52 @@ class Engine:
             return tuple([envav] + rest)
         return tuple(fargs[: cfn.argc] + [TOP] * max(0, cfn.argc - len(fargs)))
 
+    def invoke(self, f, argavs, env, state, where):
+        """call a callable *value* (closure, fn item, enum constructor) from inside a model of a std combinator;
+        returns [(result, env, state)]"""
+        if f[0] in ("cell",):
+            f = f[1]
+        if f[0] == "ref":
+            f = self.read(env, f[1], f[2])
+        target = None
+        cfn = None
+        if f[0] == "clo":
+            cfn = self.facts.fns.get(f[1])
+            ks = [k for k, n in self.facts.inst.items() if n["def"] == f[1] and n.get("has_mir")]
+            target = sorted(ks)[0] if ks else None
+            call_args = [f, ("t", tuple(argavs))]
+        elif f[0] == "fn":
+            path = norm(f[1])
+            parent, _, vname = path.rpartition("::")
+            adt = self.facts.adts.get(parent)
+            if adt is not None and adt.get("kind") == "enum" and any(v["name"] == vname for v in adt["variants"]):
+                if parent in SHAPE_ADTS or self.track_all_adts:
+                    return [(enum(parent, [(vname, argavs[0] if argavs else None)], None), env, state)]
+                return [(TOP, env, state)]
+            ks = [k for k, n in self.facts.inst.items() if norm(n["def"]) == path and n.get("has_mir")]
+            if ks:
+                target = sorted(ks)[0]
+                cfn = self.facts.fns.get(self.facts.inst[target]["def"])
+                call_args = list(argavs)
+        if target is None or cfn is None:
+            self.stats["unknown_callees"]["<callable value>"] = self.stats["unknown_callees"].get("<callable value>", 0) + 1
+            state = self.auto.event(state, ("unknown_call", "<callable value>", tuple(argavs)), where)
+            return [(TOP, self.havoc(env, list(argavs)), state)]
+        fargs = self.bind_args(cfn, None, env, call_args)
+        memo_in = tuple(sorted((l, v) for l, v in env.items() if -1000 < l < 0))
+        res = self._summary3(target, state, fargs, memo_in)
+        env2 = self.havoc(env, call_args)
+        env2 = {l: v for l, v in env2.items() if l >= 0}
+        out = []
+        for (r, s2, memo_out) in res:
+            e3 = env2
+            if memo_out:
+                e3 = dict(env2)
+                for l, v in memo_out:
+                    e3[l] = v
+            out.append((r, e3, s2))
+        return out
+
     # ---- summaries -------------------------------------------------------------------------
     def summary(self, inst_key, state, fargs):
         return frozenset((r, s) for (r, s, m) in self._summary3(inst_key, state, fargs, ()))
@@ -1395,7 +1441,35 @@ def _then_some(eng, fn, bb, t, env, state, args, where):
     return [(enum(OPTION, [("None", None), ("Some", v)]), env, state)]
 
 
+def _hof(adt, on, wrap):
+    """std combinator that runs its callable on the payload of variant `on` only; `wrap`: the variant its result is
+    wrapped in (None: the callable's own result is the result)"""
+    def h(eng, fn, bb, t, env, state, args, where):
+        recv = args[0] if args else TOP
+        if recv[0] in ("cell",):
+            recv = recv[1]
+        f = args[1] if len(args) > 1 else TOP
+        ex = eng.expand(recv, adt) if recv[0] in ("top", "e") else None
+        if ex is None:
+            return [(TOP, eng.havoc(env, args), state)]
+        out = []
+        for n, p in ex[2]:
+            if n != on:
+                out.append((enum(adt, [(n, p)]), env, state))
+                continue
+            for r, env2, st2 in eng.invoke(f, [p if p is not None else TOP], env, state, where):
+                out.append((enum(adt, [(wrap, r)]) if wrap else r, env2, st2))
+        return out
+    return h
+
+
 MODELS = {
+    "core::result::Result::map": _hof(RESULT, "Ok", "Ok"),
+    "core::result::Result::map_err": _hof(RESULT, "Err", "Err"),
+    "core::result::Result::and_then": _hof(RESULT, "Ok", None),
+    "core::result::Result::or_else": _hof(RESULT, "Err", None),
+    "core::option::Option::map": _hof(OPTION, "Some", "Some"),
+    "core::option::Option::and_then": _hof(OPTION, "Some", None),
     "core::bool::then_some": _then_some,
     "core::bool::<impl bool>::then_some": _then_some,
     "core::option::Option::is_none": _is_variant(OPTION, ["None"], ["Some"]),
